@@ -406,6 +406,10 @@ func checkC07(P *Prog, r *Result) {
 					r.ok("C07/reinit", c, P.ipos(s.call), "field is reset to a constant before every Put into this pool and New allocates a zero value: clean at every Get")
 					continue
 				}
+				if P.fieldNeverRead(f) {
+					r.ok("C07/reinit", c, P.ipos(s.call), "no code of the module reads this field (a timing or a counter kept for debugging): a stale value in it reaches nobody")
+					continue
+				}
 				if sameField(f, R.FTest) && sameNamed(s.elem, R.SchemaCtx) {
 					if testWBR {
 						r.ok("C07/reinit", c, P.ipos(s.call), "not stored at acquisition; discharged by write-before-read: "+testWBRDetail)
@@ -1729,4 +1733,46 @@ func (P *Prog) checkPooledMapOwned(r *Result, rule string) {
 		r.broken("vacuous: no pooled struct types found")
 	}
 	r.floor(rule, 2)
+}
+
+// fieldNeverRead: no function of the module loads the field, takes its address for anything but a store, or copies
+// the whole struct it belongs to by value out of a pointer (which would read it along).
+func (P *Prog) fieldNeverRead(f *types.Var) bool {
+	if P.fieldReadMemo == nil {
+		P.fieldReadMemo = map[*types.Var]bool{}
+		for _, fn := range P.Funcs {
+			eachInstr(fn, func(_ *ssa.BasicBlock, _ int, in ssa.Instruction) {
+				switch x := in.(type) {
+				case *ssa.Field:
+					if _, fv := fieldVar(x); fv != nil {
+						P.fieldReadMemo[fv.Origin()] = true
+					}
+				case *ssa.FieldAddr:
+					_, fv := fieldVar(x)
+					if fv == nil || x.Referrers() == nil {
+						return
+					}
+					for _, rf := range *x.Referrers() {
+						if st, ok := rf.(*ssa.Store); ok && st.Addr == ssa.Value(x) {
+							continue
+						}
+						if _, ok := rf.(*ssa.DebugRef); ok {
+							continue
+						}
+						P.fieldReadMemo[fv.Origin()] = true
+					}
+				case *ssa.UnOp:
+					// `copy := *ptr` of a whole struct reads every field
+					if x.Op == token.MUL {
+						if st, ok := x.Type().Underlying().(*types.Struct); ok {
+							for i := 0; i < st.NumFields(); i++ {
+								P.fieldReadMemo[st.Field(i).Origin()] = true
+							}
+						}
+					}
+				}
+			})
+		}
+	}
+	return !P.fieldReadMemo[f.Origin()]
 }
